@@ -464,10 +464,15 @@ class Command(Accessible):
             # set the optional members on a copy: the datatype object given by the
             # caller might be used for other commands too
             self.argument = self.argument.copy()
-            if 'argument' in self.ownProperties:
-                self.ownProperties['argument'] = self.argument
+            # an own property (also of the clone made for a method overriding a command):
+            # subclasses inherit the optional members following from this function
+            self.ownProperties['argument'] = self.argument
             self.argument.optional = [p for p,v in sig.parameters.items()
                    if v.default is not inspect.Parameter.empty]
+            if 'datatype' in self.propertyValues:
+                # on a clone (a method overriding a command) the datatype is built already: it
+                # must not keep the struct of the overridden command, copies are made from it
+                self.datatype = CommandType(self.argument, self.result)
         if 'description' not in self.ownProperties and func.__doc__ is not None:
             self.description = inspect.cleandoc(func.__doc__)
             self.ownProperties['description'] = self.description
